@@ -1,5 +1,7 @@
 package lib
 
+import "strings"
+
 // HostileTextCatalogue: every place the TEXT of an annotation (not a proto identifier) is printed into
 // emitted source — enum_value, oneof_value, discriminator, flatten_prefix, field examples, header
 // names/descriptions/examples, base paths — fed with characters that need escaping in a Go or TS
@@ -44,4 +46,220 @@ func HostileTextCatalogue() []*Request {
 		out = append(out, r)
 	}
 	return out
+}
+
+// ---- C13: do the emitted Go packages build / vet and the TS modules load with such texts? -------------------
+//
+// printfTexts: texts with a percent sign.  They are harmless inside a Go string literal that is used as a
+// VALUE (a map key, a struct field) and change the meaning of one that is used as a FORMAT (fmt.Errorf,
+// fmt.Sprintf, log.Printf): `go vet`'s printf analyzer, which `go test` runs, rejects the package
+// ("format %, has unknown verb", "reads arg #2, but call has 1 arg").  A unit enum ("%", "‰", "°C"), a
+// discount label ("50%-off"), a URL-escaped path segment ("/a%20b") are ordinary annotation texts.
+var printfTexts = []string{"%", "100% of scale", "%d", "%s", "%v items", "%%", "%!", "50%-off", "% d", "%q: %w", "‰", "°C", "a%20b", "%[2]d", "%*d"}
+
+// quoteTexts: texts that cannot stand unescaped inside a Go interpreted string literal.  A generator that
+// prints them raw produces unparsable source, which protogen refuses (an error answer: the definition is
+// not accepted, C12's subject); one request per text and site, so that a refusal hides nothing else.
+var quoteTexts = []string{`say "hi"`, `C:\dir`, "line\nbreak"}
+
+func buildTexts() []string { return append(append([]string{}, hostileTexts...), printfTexts...) }
+
+// hostileTextSite builds one request that puts every text of `texts` at one annotation site.
+func hostileTextSite(site, id string, texts []string) *Request {
+	q := func(t string) string { return id + ".v1." + t }
+	var r *Request
+	switch site {
+	case "enum": // top-level enum, nested enum; used singular, repeated and as a map value
+		top := []*EnumValue{{Name: "TEAM_UNSPECIFIED", Number: 0}}
+		nested := []*EnumValue{{Name: "UNIT_UNSPECIFIED", Number: 0}}
+		for i, t := range texts {
+			top = append(top, &EnumValue{Name: "TEAM_V" + hostileIdent(i), Number: int32(i + 1), EnumValue: Str(t)})
+			nested = append(nested, &EnumValue{Name: "UNIT_V" + hostileIdent(i), Number: int32(i + 1), EnumValue: Str(t)})
+		}
+		r = featureReq(id, []*Enum{{Name: "Team", Values: top}}, []*Message{
+			M("Ticket", F("team", 1, "", EnumT(q("Team"))), F("title", 2, "string"), F("teams", 3, "", EnumT(q("Team")), Rep()), F("by", 4, "", EnumT(q("Team")), MapOf("string")),
+				F("unit", 5, "", EnumT(q("Ticket.Unit")))).WithEnums(&Enum{Name: "Unit", Values: nested})}, "Ticket")
+	case "enumnosvc": // a file without services: go-http writes the enum encoder for it, go-client does not
+		vals := []*EnumValue{{Name: "UNIT_UNSPECIFIED", Number: 0}}
+		for i, t := range texts {
+			vals = append(vals, &EnumValue{Name: "UNIT_V" + hostileIdent(i), Number: int32(i + 1), EnumValue: Str(t)})
+		}
+		f := &File{Enums: []*Enum{{Name: "Unit", Values: vals}}, Messages: []*Message{M("Reading", F("unit", 1, "", EnumT(q("Unit"))), F("value", 2, "double"))}}
+		r = OneFile(id, id+".v1", f)
+		r.Tags = []string{"features"}
+	case "oneofval": // oneof_value of a plain and of a flattened discriminated oneof
+		ev := M("Event", F("eid", 1, "string")).WithOneofs(&Oneof{Name: "content", HasConfig: true, Discriminator: "kind"})
+		fl := M("Flat", F("fid", 1, "string")).WithOneofs(&Oneof{Name: "body", HasConfig: true, Discriminator: "type", Flatten: true})
+		msgs := []*Message{M("TextP", F("body_text", 1, "string"))}
+		for i, t := range texts {
+			ev.Fields = append(ev.Fields, F("v"+strings.ToLower(hostileIdent(i)), int32(i+2), "", Msg(q("TextP")), InOneof("content"), OneofVal(t)))
+			fl.Fields = append(fl.Fields, F("w"+strings.ToLower(hostileIdent(i)), int32(i+2), "", Msg(q("TextP")), InOneof("body"), OneofVal(t)))
+		}
+		r = featureReq(id, nil, append(msgs, ev, fl), "Event", "Flat")
+	case "disc": // discriminator: one message per text
+		msgs := []*Message{M("TextP", F("body_text", 1, "string")), M("ImageP", F("url", 1, "string"))}
+		var tops []string
+		for i, t := range texts {
+			n := "Ev" + hostileIdent(i)
+			msgs = append(msgs, M(n, F("eid", 1, "string"), F("text", 2, "", Msg(q("TextP")), InOneof("content")), F("image", 3, "", Msg(q("ImageP")), InOneof("content"))).
+				WithOneofs(&Oneof{Name: "content", HasConfig: true, Discriminator: t, Flatten: i%2 == 1}))
+			tops = append(tops, n)
+		}
+		r = featureReq(id, nil, msgs, tops...)
+	case "props": // texts the TS generators print as bare property names: discriminators (even index) and flatten prefixes (odd)
+		msgs := []*Message{M("TextP", F("body_text", 1, "string")), M("ImageP", F("url", 1, "string")), M("Addr", F("street", 1, "string"), F("zip_code", 2, "string"))}
+		var tops []string
+		p := M("Person", F("pid", 1, "string"))
+		for i, t := range texts {
+			n := "Ev" + hostileIdent(i)
+			msgs = append(msgs, M(n, F("eid", 1, "string"), F("text", 2, "", Msg(q("TextP")), InOneof("content")), F("image", 3, "", Msg(q("ImageP")), InOneof("content"))).
+				WithOneofs(&Oneof{Name: "content", HasConfig: true, Discriminator: t, Flatten: i%2 == 1}))
+			tops = append(tops, n)
+			p.Fields = append(p.Fields, F("a"+strings.ToLower(hostileIdent(i)), int32(i+2), "", Msg(q("Addr")), Flatten(true), FlattenPrefix(t)))
+		}
+		r = featureReq(id, nil, append(msgs, p), append(tops, "Person")...)
+	case "flatprefix":
+		p := M("Person", F("pid", 1, "string"))
+		for i, t := range texts {
+			p.Fields = append(p.Fields, F("a"+strings.ToLower(hostileIdent(i)), int32(i+2), "", Msg(q("Addr")), Flatten(true), FlattenPrefix(t)))
+		}
+		r = featureReq(id, nil, []*Message{M("Addr", F("street", 1, "string")), p}, "Person")
+	case "hdr": // header description, example and format (all three carry the text), at service and at method level
+		mk := func(i int, t, lvl string) *Header {
+			return &Header{Name: "X-" + lvl + "-" + hostileIdent(i), Type: "string", Required: i%2 == 0, Description: t, Example: t, Format: t}
+		}
+		var sh, mh []*Header
+		for i, t := range texts {
+			sh = append(sh, mk(i, t, "Svc"))
+			mh = append(mh, mk(i, t, "Md"))
+		}
+		r = featureReq(id, nil, []*Message{M("Ping", F("msg", 1, "string")), M("GetReq", F("id", 1, "string"))}, "Ping")
+		svc := r.Files[0].Services[0]
+		svc.Headers = sh
+		svc.Methods[0].Headers = mh
+		svc.Methods = append(svc.Methods, RPC("GetPing", q("GetReq"), q("Ping"), "GET", "/ping/{id}").WithHeaders(mh...))
+	case "route": // method paths (literal segments; with and without path variables) and query parameter names
+		get := M("GetReq", F("id", 1, "string"))
+		for i, t := range texts {
+			get.Fields = append(get.Fields, F("q"+strings.ToLower(hostileIdent(i)), int32(i+2), []string{"string", "int32", "bool"}[i%3], Query(t, i%4 == 0)))
+		}
+		msgs := []*Message{M("Ping", F("msg", 1, "string")), get}
+		svc := &Service{Name: "Echo", BasePath: "/" + id, HasConfig: true}
+		for i, t := range texts {
+			seg := strings.ReplaceAll(strings.TrimSpace(t), " ", "_")
+			if i%2 == 0 {
+				svc.Methods = append(svc.Methods, RPC("Post"+hostileIdent(i), q("Ping"), q("Ping"), "POST", "/p/"+seg))
+			} else {
+				svc.Methods = append(svc.Methods, RPC("Get"+hostileIdent(i), q("GetReq"), q("Ping"), "GET", "/g/"+seg+"/{id}"))
+			}
+		}
+		svc.Methods = append(svc.Methods, RPC("DelIt", q("GetReq"), q("Ping"), "DELETE", "/del/{id}"), RPC("PostIt", q("GetReq"), q("Ping"), "POST", "/post"))
+		f := &File{Messages: msgs, Services: []*Service{svc}}
+		r = OneFile(id, id+".v1", f)
+		r.Tags = []string{"features"}
+	case "basepath": // one service per text
+		msgs := []*Message{M("Ping", F("msg", 1, "string")), M("GetReq", F("id", 1, "string"))}
+		f := &File{Messages: msgs}
+		for i, t := range texts {
+			seg := strings.ReplaceAll(strings.TrimSpace(t), " ", "_")
+			f.Services = append(f.Services, &Service{Name: "Svc" + hostileIdent(i), BasePath: "/" + seg, HasConfig: true, Methods: []*Method{
+				RPC("Echo"+hostileIdent(i), q("Ping"), q("Ping"), "POST", "/echo"), RPC("Get"+hostileIdent(i), q("GetReq"), q("Ping"), "GET", "/get/{id}")}})
+		}
+		r = OneFile(id, id+".v1", f)
+		r.Tags = []string{"features"}
+	case "hdrname": // header names: the Go client derives a helper function name from them, the TS client a property name
+		var hs []*Header
+		for _, t := range texts {
+			hs = append(hs, &Header{Name: t, Type: "string"})
+		}
+		r = featureReq(id, nil, []*Message{M("Ping", F("msg", 1, "string"))}, "Ping")
+		r.Files[0].Services[0].Headers = hs
+		r.Files[0].Services[0].Methods[0].Headers = hs
+	default:
+		panic("unknown hostile text site " + site)
+	}
+	r.Tags = append(r.Tags, "build", "hostile-text", site)
+	return r
+}
+
+var hostileTextSites = []string{"enum", "enumnosvc", "oneofval", "disc", "flatprefix", "hdr", "route", "basepath"}
+
+// HostileTextBuildCatalogue (C13): per site one request with all texts that keep Go source parseable
+// (hostileTexts + printfTexts), and per site x quoteText one request of its own.
+func HostileTextBuildCatalogue() []*Request {
+	var out []*Request
+	for _, site := range hostileTextSites {
+		texts := buildTexts()
+		if site == "basepath" { // one service per text: a sample of the texts is enough here
+			texts = []string{"%", "100% of scale", "%d", "a%20b", "50%-off", "tick`s", "a'b", "é日本", "${x}"}
+		}
+		if site == "route" || site == "basepath" { // a brace opens a path variable: such texts get a request of their own
+			var plain []string
+			k := 0
+			for _, t := range texts {
+				if strings.ContainsAny(t, "{}") {
+					out = append(out, hostileTextSite(site, "htv"+site+string(rune('a'+k)), []string{t}))
+					k++
+				} else {
+					plain = append(plain, t)
+				}
+			}
+			texts = plain
+		}
+		if site == "disc" || site == "flatprefix" {
+			// both TS generators print these two texts as BARE property names (Emit.v ts_prop_ok): the texts that are
+			// identifier names (must load) and the others (known finding ts-property-name-not-identifier) go into
+			// separate requests, and the shapes people actually write get one request each.  Non-ASCII SYMBOLS and
+			// \u escapes are outside the model's approximation of an identifier name.
+			var safe, breaking []string
+			for _, t := range texts {
+				switch {
+				case t == "‰" || t == "°C" || strings.Contains(t, `\u`):
+				case tsIdentText(t):
+					safe = append(safe, t)
+				default:
+					breaking = append(breaking, t)
+				}
+			}
+			if site == "disc" { // the identifier-like texts of both sites share one request
+				out = append(out, hostileTextSite("props", "htsprops", append(safe, "$type", "_kind", "kind_of", "type2", "Ωmega", "home_", "$", "_", "h2", "été_")))
+			}
+			real := map[string]string{"disc": "@type", "flatprefix": "home-"}[site]
+			out = append(out, hostileTextSite(site, "htr"+site, []string{real}))
+			breaking = append(breaking, map[string][]string{"disc": {"event.type", "x-kind", "2nd"}, "flatprefix": {"addr.", "2nd_", "home-"}}[site]...)
+			texts = breaking
+		}
+		out = append(out, hostileTextSite(site, "htb"+site, texts))
+		for i, t := range quoteTexts {
+			out = append(out, hostileTextSite(site, "htq"+site+string(rune('a'+i)), []string{t}))
+		}
+	}
+	// header names (one request per name: a name whose helper identifier is not one is refused by the Go client)
+	for i, t := range []string{"X-100%", "X-it's", "X-tick`s", "X-${x}", "X-a b", "X-Ünï", "%s"} {
+		out = append(out, hostileTextSite("hdrname", "htn"+string(rune('a'+i)), []string{t}))
+	}
+	// field examples: printed into the mock file (generate_mock=true), string / int / bool / float selectors
+	mock := MockHostileExamples()[0]
+	mock.ID = "htbmockex"
+	for _, f := range mock.Files {
+		f.Path = strings.Replace(f.Path, "mexhostile/", "htbmockex/", 1)
+		f.GoPackage = strings.ReplaceAll(f.GoPackage, "mexhostile", "htbmockex")
+	}
+	mock.Tags = []string{"build", "hostile-text", "examples", "mock"}
+	out = append(out, mock)
+	return out
+}
+
+// tsIdentText mirrors Emit.v ts_prop_ok: not empty, no leading digit, only [A-Za-z0-9_$] and bytes >= 128.
+func tsIdentText(t string) bool {
+	if t == "" || (t[0] >= '0' && t[0] <= '9') {
+		return false
+	}
+	for i := 0; i < len(t); i++ {
+		c := t[i]
+		if !(c >= 128 || c == '_' || c == '$' || (c >= '0' && c <= '9') || (c >= 'a' && c <= 'z') || (c >= 'A' && c <= 'Z')) {
+			return false
+		}
+	}
+	return true
 }
